@@ -3,6 +3,7 @@ mod c03;
 mod c01api;
 mod c05n;
 mod c06;
+mod c06rtt;
 mod c02;
 mod c07;
 mod c13;
@@ -177,6 +178,10 @@ fn main() {
         "c01api" => {
             let o = c01api::generate(seed, scale);
             o.write(&out, "c01api", "From MLV Require Import model.Bytes model.CheckApi.", "apicase", "run_api", shards);
+        }
+        "c06rtt" => {
+            let o = c06rtt::generate(seed, scale);
+            o.write(&out, "c06rtt", "From Coq Require Import QArith ZArith.\nFrom MLV Require Import model.Bytes model.Rtt model.CheckRtt.", "rttcase", "run_rtt", shards);
         }
         "c06calls" => {
             let o = c06::generate(seed, scale);
